@@ -133,6 +133,19 @@ def kernel_index(S, kind, B, diag):
         Kb = dense(k(x1, x2))
         for b in range(B):
             S.prove_eq(Kb[b], reps[b], "batched kernel AFTER indexing: element %d = replica" % b)
+        # batched hyper-parameters on UN-batched / partly batched data: the lazily evaluated cross-covariance indexed per batch element
+        u1, u2 = x1[0], x2[0]
+        for (a1, a2, nm) in ((u1, u2, "un-batched x1, x2"), (x1, u2, "batched x1, shared x2")):
+            lz = k(a1, a2)
+            for b in range(B):
+                rep = _mk(kind, ())
+                with torch.no_grad():
+                    for nme, p in rep.named_parameters():
+                        p.copy_(src[nme][b])
+                want = as_sym_arr(SH.get(dense(rep(a1[b] if a1.dim() == 3 else a1, a2))))
+                got = S.must_not_raise("lazy K[%d] (%s) of a %s kernel" % (b, nm, kind), lambda: dense(lz[b]))
+                if S.check_concrete(tuple(got.shape) == want.shape, "lazy K[%d] shape (%s)" % (b, nm), "%s vs %s" % (tuple(got.shape), want.shape)):
+                    S.prove_eq(got, want, "lazy K[%d] (%s) = replica %d" % (b, nm, b))
         if diag:
             dg = k(x1, x1, diag=True)
             for b in range(B):
@@ -245,6 +258,8 @@ def exact_gp(S, n, m, shared_x):
     with S.mode():
         model.train(); lik.train()
         mll_b = gpytorch.mlls.ExactMarginalLogLikelihood(lik, model)(model(x), y)
+        with gpytorch.settings.observation_nan_policy("mask"):
+            mll_mask_b = gpytorch.mlls.ExactMarginalLogLikelihood(lik, model)(model(x), y)  # (no NaN among the targets)
         model.eval(); lik.eval()
         with gpytorch.settings.prior_mode(True):
             prior = model(xs)
@@ -273,6 +288,7 @@ def exact_gp(S, n, m, shared_x):
             S.prove_eq(po_m[b], as_sym_arr(SH.get(ro.mean)), "posterior mean element %d" % b)
             S.prove_eq(po_c[b], as_sym_arr(SH.get(ro.covariance_matrix)), "posterior covariance element %d" % b)
             S.prove_eq(mll_b[b], as_sym_arr(SH.get(mll_r)), "marginal log likelihood element %d" % b)
+            S.prove_eq(mll_mask_b[b], as_sym_arr(SH.get(mll_r)), "marginal log likelihood under the 'mask' policy (nothing missing) element %d" % b)
 
 
 def variational(S, dist, B, M, n):
